@@ -376,7 +376,10 @@ PENDING = "check not built yet in this round (planned: Lean 4 model + proof + co
 
 
 # ---- sixth wave: C12 bridge, histories in every solver check, presentations -----------------------------------------
-CLAIMED["C12"]["text"] += (" The cost line and `all` >= `any` are now also THEOREMS without interface hypotheses (Properties/C12Bridge.lean: "
+CLAIMED["C12"]["text"] += (" The cost line and `all` >= `any` are now also THEOREMS whose interface hypotheses (embedding, evaluator, Newick law) are discharged; "
+    "what remains assumed is stated in each theorem: binary, uncoloured input trees with pairwise distinct names over [A-Za-z0-9_]+ (Naming.Ok, not derived "
+    "from label_internal), leaf species in the species tree, and under `--solutions any` each solver family's coherent cost region "
+    "(outside it ANY need not lie in ALL: C05_any_incoherent_witness); `lca` has its own statement without optimality (C12_cost_line_lca) (Properties/C12Bridge.lean: "
     "embedding of solver solutions into the written dictionaries, evaluated cost of the read-back object = totalCost; "
     "C12_cost_line_thl/_exh/_spfs/_uspfs, C12_all_superset_any_*), the embedding and the evaluator being driven against the real "
     "to_dict() / from_dict().cost(); the JSON text layer is modelled too (Model/Json.lean: render = json.dumps, parse = json.loads, tied byte for byte) with the round trip proved for every value without repeated keys, all escapes included (C12_json_roundtrip), so the cost-line theorems hold on the written TEXT, one line per result (C12_cost_line_text_thl/_exh/_spfs/_uspfs).")
